@@ -238,6 +238,7 @@ func init() {
 		Assumptions: []string{"the tables are built from literals and constructor calls (anything else fails the check as undecided)"},
 		Rules: []func(*Ctx){
 			func(c *Ctx) { c.ruleTable("R-TABLE") },
+			func(c *Ctx) { c.ruleMetaBound("R-METABOUND"); c.R.Floor("R-METABOUND", 10) },
 			func(c *Ctx) { c.ruleForward("R-FORWARD") },
 		},
 	})
